@@ -119,6 +119,17 @@ def one_case(ctx: Ctx, stream: str, i: int, depth: int) -> None:
               'options': [(o, n) for n, o in enumerate(options)], 'callback': [(o, n) for n, o in enumerate(cbs)]}
     nthreads = rng.choice([1, 1, 2, 3])
     hist = [gen_history(rng, depth, rng.randint(3, 10)) for _ in range(nthreads)]
+    # scripted openings, so that what earlier seeded changes needed is ALWAYS present in a run (not only when drawn):
+    # a Config object built ahead of time (at top level, or inside a block) and entered later inside ANOTHER block;
+    # an inverse created under the defaults and applied inside a block; named settings taking a falsy value
+    script = i % 4
+    if script == 0:
+        hist[0] = [('mkcfg', 1, {'solver': 1, 'callback': 1}), ('enter', {'solver': 2, 'throw': 1}), ('read',), ('enterobj', 1),
+                   ('read',), ('mk', 1), ('exit',), ('read',), ('apply', 1), ('exit',), ('read',)] + hist[0]
+    elif script == 1:
+        hist[0] = [('mk', 2), ('enter', {'solver': 1, 'options': 2}), ('mkcfg', 2, {'throw': 0, 'options': 0}), ('apply', 2), ('read',),
+                   ('exitExc',), ('enter', {'callback': 2}), ('enterobj', 2), ('read',), ('apply', 2), ('exit',), ('read',),
+                   ('exit',), ('read',)] + hist[0]
     # seeded interleaving
     order = [t for t, h in enumerate(hist) for _ in h]
     rng.shuffle(order)
